@@ -312,6 +312,23 @@ func writeOdd(st *store.Store, content []byte, s FileSpec, noSizes bool) (cid.Ci
 			_ = n.AddRawLink("", &format.Link{Cid: p.c, Size: p.tsz})
 		}
 		b, _ := fsn.GetBytes()
+		// legal variations no importer produces: the Raw type on a node with
+		// links (readers treat File and Raw alike), and UnixFS 1.5 metadata
+		// (mode, mtime incl. times before 1970) on interior nodes
+		if v := r.Next() % 8; v < 3 && !noSizes {
+			if u, ok := DecodeRawUnixFS(b); ok {
+				switch v {
+				case 0:
+					u.Type = 0 // Raw
+				case 1:
+					u.Mode, u.HasMode = []uint64{0o644, 0o755, 0o600, 0o100644}[r.Next()%4], true
+					u.HasMtime, u.MtimeSec = true, []int64{0, 1, 1700000000, -1, -86400 * 365}[r.Next()%5]
+				default:
+					u.HasMtime, u.MtimeSec, u.HasNanos, u.MtimeNanos = true, -int64(r.Next()%100000), true, uint32(r.Next()%1000000000)
+				}
+				b = u.Encode()
+			}
+		}
 		if noSizes {
 			// Type=File and nothing else: neither FileSize nor BlockSizes are
 			// declared (boxo's FSNode would always emit filesize=0, which
